@@ -171,10 +171,22 @@ func c16EvalDots(c *Ctx, raw []byte) {
 //
 // All keys have three path-safe segments and a last segment that is unique within its block, so no
 // key is a dotted prefix of another.
+//
+// Extra: ordinary pairs (keys below x., plain TEXT values: words separated by blanks, see c16Phrases) that stand in the
+// same text, the first Head of them in front of the blocks and the others behind them — a large set is not made of
+// synthetic padding only, the pairs next to a very long line are as much part of the set as the long line is.
 type c16Big struct {
-	Blocks []int `json:"blocks"`
-	ValLen int   `json:"valLen"`
+	Blocks []int       `json:"blocks"`
+	ValLen int         `json:"valLen"`
+	Extra  [][2]string `json:"extra,omitempty"`
+	Head   int         `json:"head,omitempty"`
 }
+
+// c16Phrases: plain values (no escaping needed: c16ValOK) that are TEXT — words and blanks — and that spell what is
+// syntax in the formats properties files live next to (shell env files, ini sections, YAML, SQL, XML).
+var c16Phrases = []string{"data export enabled", "export PATH", "export -p", "include other.properties", "import x", "[section]",
+	"- item", "set -e", "source ./env", "unset X", "if [ -f x ]; then", "<tag>", "--- ", "%YAML 1.2", "select * from t", "a, b; c",
+	"true false", "1 2 3", "x ", "a\tb c"}
 
 const c16BigMaxPairs = 400000
 const c16BigMaxBytes = 24 << 20
@@ -191,10 +203,32 @@ func c16BigPairs(p c16Big) (keys []string, kv map[string]string, text string, ok
 	if p.ValLen < 0 || total > c16BigMaxPairs || bytesEst > c16BigMaxBytes {
 		return nil, nil, "", false
 	}
-	kv = make(map[string]string, total)
-	keys = make([]string, 0, total)
+	if len(p.Extra) > 64 || p.Head < 0 || p.Head > len(p.Extra) {
+		return nil, nil, "", false
+	}
+	for i, e := range p.Extra {
+		if !strings.HasPrefix(e[0], "x.") || !c16KeyRe.MatchString(e[0]) || !c16ValOK(e[1]) || len(e[1]) > 200 {
+			return nil, nil, "", false
+		}
+		for j, f := range p.Extra {
+			if i != j && (e[0] == f[0] || strings.HasPrefix(f[0], e[0]+".")) {
+				return nil, nil, "", false
+			}
+		}
+		bytesEst += len(e[0]) + len(e[1]) + 2
+	}
+	kv = make(map[string]string, total+len(p.Extra))
+	keys = make([]string, 0, total+len(p.Extra))
 	var sb strings.Builder
 	sb.Grow(bytesEst)
+	extra := func(es [][2]string) {
+		for _, e := range es {
+			kv[e[0]] = e[1]
+			keys = append(keys, e[0])
+			sb.WriteString(e[0] + "=" + e[1] + "\n")
+		}
+	}
+	extra(p.Extra[:p.Head])
 	const fill = "xyz-ABC_012."
 	pad := strings.Repeat(fill, p.ValLen/len(fill)+1)
 	for b, n := range p.Blocks {
@@ -212,6 +246,7 @@ func c16BigPairs(p c16Big) (keys []string, kv map[string]string, text string, ok
 			sb.WriteByte('\n')
 		}
 	}
+	extra(p.Extra[p.Head:])
 	return keys, kv, sb.String(), true
 }
 
@@ -364,6 +399,9 @@ func c16EvalBig(c *Ctx, raw []byte) {
 	if p.ValLen > 64<<10 {
 		c.Dist("big:line>64KiB")
 	}
+	if len(p.Extra) > 0 {
+		c.Dist("big:with-ordinary-pairs-whose-values-are-text")
+	}
 	c16ExactLarge(c, kv, text)
 }
 
@@ -505,6 +543,18 @@ func c16RunBig(c *Ctx) {
 		c16GenBig(r, kib(4200, 5600), 80+r.Intn(60), 2000),              // above 4 MiB
 		c16GenBig(r, kib(200, 3000), (66+r.Intn(200))<<10, 1+r.Intn(3)), // a few pairs, each line longer than 64 KiB
 	}
+	// a few pairs with lines longer than 64 KiB (up to 200 KiB) in the middle of ordinary pairs whose values are text:
+	// every phrase of the pool once, in a random order, some in front of the long lines and some behind them
+	for i := 0; i < 2; i++ {
+		cs := c16GenBig(r, kib(70, 400), (65+r.Intn(135))<<10, 1+r.Intn(2))
+		for j, k := range r.Perm(len(c16Phrases)) {
+			if c16ValOK(c16Phrases[k]) {
+				cs.Extra = append(cs.Extra, [2]string{fmt.Sprintf("x.e%d.%s", j, pick(r, c16Segs)), c16Phrases[k]})
+			}
+		}
+		cs.Head = r.Intn(len(cs.Extra) + 1)
+		cases = append(cases, cs)
+	}
 	if c.Thorough() {
 		for i := 0; i < 3; i++ {
 			cases = append(cases, c16GenBig(r, kib(60, 7000), 8+r.Intn(300), 1000))
@@ -563,13 +613,37 @@ func c16ShrinkBig(raw []byte) [][]byte {
 			out = append(out, b)
 		}
 	}
+	if len(p.Extra) > 0 {
+		// the ordinary pairs: none, one half, one less; then the blocks / the value length with the pairs kept
+		add(c16Big{Blocks: p.Blocks, ValLen: p.ValLen})
+		h := len(p.Extra) / 2
+		add(c16Big{Blocks: p.Blocks, ValLen: p.ValLen, Extra: p.Extra[:h], Head: min(p.Head, h)})
+		add(c16Big{Blocks: p.Blocks, ValLen: p.ValLen, Extra: p.Extra[h:], Head: max(p.Head-h, 0)})
+		for i := range p.Extra {
+			q := c16Big{Blocks: p.Blocks, ValLen: p.ValLen, Extra: append(append([][2]string{}, p.Extra[:i]...), p.Extra[i+1:]...), Head: p.Head}
+			if i < p.Head {
+				q.Head--
+			}
+			add(q)
+		}
+		for i, e := range p.Extra {
+			if j := strings.LastIndex(e[1], " "); j > 0 {
+				q := c16Big{Blocks: p.Blocks, ValLen: p.ValLen, Extra: append([][2]string{}, p.Extra...), Head: p.Head}
+				q.Extra[i] = [2]string{e[0], e[1][:j+1]}
+				if q.Extra[i][1] == e[1] {
+					q.Extra[i][1] = e[1][:j]
+				}
+				add(q)
+			}
+		}
+	}
 	n := len(p.Blocks)
 	for cut := n / 2; cut >= 1; cut /= 2 {
-		add(c16Big{Blocks: append([]int{}, p.Blocks[:n-cut]...), ValLen: p.ValLen})
+		add(c16Big{Blocks: append([]int{}, p.Blocks[:n-cut]...), ValLen: p.ValLen, Extra: p.Extra, Head: p.Head})
 	}
 	for _, d := range []int{10, 2} {
 		if p.ValLen/d < p.ValLen {
-			add(c16Big{Blocks: p.Blocks, ValLen: p.ValLen / d})
+			add(c16Big{Blocks: p.Blocks, ValLen: p.ValLen / d, Extra: p.Extra, Head: p.Head})
 		}
 	}
 	for i, b := range p.Blocks {
@@ -578,14 +652,14 @@ func c16ShrinkBig(raw []byte) [][]byte {
 		}
 		for _, nb := range []int{b / 10, b / 2, b - b/10 - 1} {
 			if nb >= 0 && nb < b {
-				q := c16Big{Blocks: append([]int{}, p.Blocks...), ValLen: p.ValLen}
+				q := c16Big{Blocks: append([]int{}, p.Blocks...), ValLen: p.ValLen, Extra: p.Extra, Head: p.Head}
 				q.Blocks[i] = nb
 				add(q)
 			}
 		}
 	}
 	if p.ValLen > 0 {
-		add(c16Big{Blocks: p.Blocks, ValLen: p.ValLen - 1})
+		add(c16Big{Blocks: p.Blocks, ValLen: p.ValLen - 1, Extra: p.Extra, Head: p.Head})
 	}
 	return out
 }
